@@ -31,7 +31,7 @@ var errCatalogue = []shape{
 	{`s.nope`, kObj}, {`s == {a = 1}`, kObj}, {`null[s]`, kStr}, {`s[null]`, kMap}, {`o[null] == s`, kStr},
 	{`[for x in s : x.foo]`, kList}, {`[for k, v in s : upper(k, v)]`, kMap}, {`{for k, v in s : k => v.nope}`, kMap},
 	{`[for x in s : x + 1]`, kTup}, {`"%{for x in s}${x.y}%{endfor}"`, kList},
-	{`b ? {(s) = 1} : {x = [1]}`, kStr}, {`b ? [{(s) = 1}] : [{x = "y"}, 2]`, kStr}, {`[for v in [{(s) = 1}] : v.nope]`, kStr},
+	{`b ? {(s) = 1} : {x = [1]}`, kStr}, {`b ? [{(s) = 1}] : [{x = "y"}, 2]`, kStr}, {`b ? [{(s) = 1}] : [{x = []}]`, kStr}, {`b ? {k = {(s) = 1}} : {k = {x = []}}`, kStr}, {`[for v in [{(s) = 1}] : v.nope]`, kStr},
 	// the secret as the only attribute NAME of a marked object in scope
 	{`s.nope`, kKeyObj}, {`s[0]`, kKeyObj}, {`s + 1`, kKeyObj}, {`l[s]`, kKeyObj}, {`upper(s)`, kKeyObj}, {`s ? 1 : 2`, kKeyObj},
 	{`"${s}"`, kKeyObj}, {`[s, p].x`, kKeyObj}, {`b ? s : [1]`, kKeyObj}, {`s == p ? nosuch : 1`, kKeyObj},
